@@ -9,8 +9,19 @@ CoefOnes   == <<1>>
 (* from r1) or one of the recipes of the chain (a cycle hanging off the end of a chain)       *)
 ChainLeaf == CHOOSE x \in Leaves : TRUE
 ChainBook(L, t) == [r \in 1..L |-> << <<(IF r < L THEN r + 1 ELSE t), Coef(r, 1)>> >>]
-InitChain == /\ book0 \in {ChainBook(L, t) : L \in 0..Cardinality(Recipes), t \in {ChainLeaf} \cup Recipes}
+InitChain == /\ decl = <<>>
+             /\ book0 \in {ChainBook(L, t) : L \in 0..Cardinality(Recipes), t \in {ChainLeaf} \cup Recipes}
              /\ \A r \in DOMAIN book0 : \A i \in 1..Len(book0[r]) : book0[r][i][1] \in DOMAIN book0 \cup {ChainLeaf}
              /\ maxDepth \in Depths
              /\ db = book0 /\ heights = NoHeights /\ pending = DOMAIN book0 /\ order = <<>> /\ status = "running"
+
+(* book files with repeated headings: every sequence of <= MaxRecs records over the recipe names, each *)
+(* with <= MaxIngr ingredients; the book is what LoadDatabaseFromStream leaves in the map (last wins)   *)
+MaxRecs == 3
+RecordSet == {[name |-> r, ingr |-> [i \in 1..Len(l) |-> <<l[i], Coef(r, i)>>]] : r \in Recipes, l \in IngrLists(MaxIngr)}
+RecordSeqs == UNION {[1..k -> RecordSet] : k \in 0..MaxRecs}
+InitRecords == /\ decl \in RecordSeqs
+               /\ book0 = LastWins(decl, 1, EmptyBook)
+               /\ maxDepth \in Depths
+               /\ db = book0 /\ heights = NoHeights /\ pending = DOMAIN book0 /\ order = <<>> /\ status = "running"
 =============================================================================
